@@ -179,3 +179,30 @@ impl std::io::Write for ShortWriter {
     }
     fn flush(&mut self) -> std::io::Result<()> { Ok(()) }
 }
+
+/// C16: "any message the sender accepts is written as ... ; payloads above the protocol maximum of 7609 bytes are refused rather than
+/// truncated" -- for `send` itself: the fields of `Message` are public, so a message need not come from `Message::new`.
+/// arg: "<payload bytes>|<payload_len field>": a message built from its fields.  What `send` accepts must arrive at a receiver as the
+/// same payload; anything else (above the maximum, length field and payload disagreeing) must be refused, with nothing written.
+pub fn send_fields(arg: &str) -> (bool, String) {
+    let n: Vec<usize> = arg.split('|').filter_map(|x| x.parse().ok()).collect();
+    if n.len() != 2 { return (false, "need <payload bytes>|<payload_len>".into()); }
+    let payload: Vec<u8> = (0..n[0]).map(|i| (i % 251) as u8 ^ 0x5a).collect();
+    let msg = Message { channel: 0x0102_0304, command: Command::Cbor, sequence: 0, payload_len: n[1], payload: payload.clone() };
+    let mut out: Vec<u8> = Vec::new();
+    let sent = msg.send(&mut out);
+    let well_formed = n[0] == n[1] && n[0] <= 7609;
+    match sent {
+        Err(_) => {
+            if well_formed { return (true, format!("a {}-byte message is refused by send", n[0])); }
+            (!out.is_empty(), format!("refused, {} bytes written before the refusal", out.len()))
+        }
+        Ok(()) => {
+            if !well_formed { return (true, format!("send accepted a message with a {}-byte payload and payload_len {} and wrote {} packets", n[0], n[1], out.len() / 64)); }
+            let mut h = ChannelHandler::default();
+            let mut got = None;
+            for p in out.chunks(64) { if let Some(m) = h.handle_packet(p) { got = Some(m); } }
+            match got { Some(m) if m.payload == payload => (false, "delivered as sent".into()), _ => (true, "accepted by send but not delivered as sent".into()) }
+        }
+    }
+}
